@@ -41,7 +41,12 @@ def default_number (params : List (Value N)) (index : Nat) (default : N) : Excep
 /-- `smart_vec` (src/stdlib/mod.rs) -/
 def smart_vec (params : List (Value N)) : List (Value N) :=
   match params with
-  | [.arr v] => if (params.length == 1) then v else params
+  | [.arr v] =>
+      (if (params.length == 1) then
+         v
+       else
+         (match params with
+          | _ => params))
   | _ => params
 
 /-- `at` (src/stdlib/common.rs) -/
@@ -255,6 +260,34 @@ def pow (params : List (Value N)) : Except NativeError (Value N) :=
   match params with
   | (.num base) :: _ => .ok (.num (NumX.pow base exponent))
   | _ :: _ => .error .wrongParameterType
+  | _ => .error (.wrongParameterCount 1)
+
+/-- `chr` (src/stdlib/string.rs) -/
+def chr (params : List (Value N)) : Except NativeError (Value N) :=
+  match params with
+  | [.num ordinal] =>
+      (if NumX.inAscii ordinal then
+         .ok (.str [Char.ofNat (NumX.toU32 ordinal)])
+       else
+         (match params with
+          | [.num _] => .error (.custom ['n', 'u', 'm', 'b', 'e', 'r', ' ', 'i', 's', ' ', 'o', 'u', 't', ' ', 'o', 'f', ' ', 'A', 'S', 'C', 'I', 'I', ' ', 'r', 'a', 'n', 'g', 'e'])
+          | [_] => .error .wrongParameterType
+          | _ => .error (.wrongParameterCount 1)))
+  | [_] => .error .wrongParameterType
+  | _ => .error (.wrongParameterCount 1)
+
+/-- `ord` (src/stdlib/string.rs) -/
+def ord (params : List (Value N)) : Except NativeError (Value N) :=
+  match params with
+  | [.str char] =>
+      (if (char.length == 1) then
+         if List.all char (fun c => decide (c.toNat < 128)) then .ok (.num (NumX.ofNat ((((List.head? char).getD (Char.ofNat 0)).toNat % 256)))) else .error (.custom ['c', 'h', 'a', 'r', 'a', 'c', 't', 'e', 'r', ' ', 'i', 's', ' ', 'o', 'u', 't', ' ', 'o', 'f', ' ', 'A', 'S', 'C', 'I', 'I', ' ', 'r', 'a', 'n', 'g', 'e'])
+       else
+         (match params with
+          | [.str _] => .error (.custom ['s', 't', 'r', 'i', 'n', 'g', ' ', 'i', 's', ' ', 't', 'o', 'o', ' ', 'l', 'o', 'n', 'g'])
+          | [_] => .error .wrongParameterType
+          | _ => .error (.wrongParameterCount 1)))
+  | [_] => .error .wrongParameterType
   | _ => .error (.wrongParameterCount 1)
 
 /-- `split` (src/stdlib/string.rs) -/
